@@ -182,6 +182,27 @@ def model_trace(names, ns):
     return out
 
 
+METHOD_OF = {"matching_cost": "compute_cost_volume", "aggregation": "cost_volume_aggregation", "optimization": "optimize_cv",
+             "semantic_segmentation": "compute_semantic_segmentation", "cost_volume_confidence": "confidence_prediction",
+             "disparity": "to_disp", "filter": "filter_disparity", "refinement": "subpixel_refinement",
+             "multiscale": "disparity_range"}
+
+
+def model_calls(steps, ns, has_val):
+    """(step, scale, method, side) for every application the documented run performs"""
+    out = []
+    sides = ["L", "R"] if has_val else ["L"]
+    for k, n, s in model_trace([n for n, _ in steps], ns):
+        cfg = dict(steps)[n] if False else next(c for nn, c in steps if nn == n)
+        if k == "validation":
+            out += [(n, s, "disparity_checking", "L"), (n, s, "disparity_checking", "R")]
+            if "interpolated_disparity" in cfg:
+                out += [(n, s, "interpolated_disparity", "L"), (n, s, "interpolated_disparity", "R")]
+        else:
+            out += [(n, s, METHOD_OF[k], side) for side in sides]
+    return out
+
+
 def products_equal(a, b) -> bool:
     return not build.snapshot_diff(build.snapshot(a), build.snapshot(b))
 
@@ -220,7 +241,7 @@ def pipeline_body(ctx: Ctx, p: dict) -> None:
                 ctx.violation("C01/second-check-differs", tag)
         else:
             stubs.CALLS.clear()
-            spy = drive.Spy()
+            spy = drive.DeepSpy()
             try:
                 with spy:
                     lo, ro = drive.run_checked(machine, l, r, copy.deepcopy(checked))
@@ -235,6 +256,12 @@ def pipeline_body(ctx: Ctx, p: dict) -> None:
                 sig = "C01/step-not-executed" if missing and not extra else (
                     "C01/step-executed-too-often" if extra and not missing else "C01/run-trace-differs")
                 ctx.violation(sig, f"{tag}: missing={missing[:4]} extra={extra[:4]} trace={trace}")
+            exp_calls_deep = model_calls(steps, ns, has_val)
+            if spy.calls != exp_calls_deep:
+                extra = [c for c in spy.calls if c not in exp_calls_deep]
+                missing = [c for c in exp_calls_deep if c not in spy.calls]
+                sig = "C01/step-not-applied-on-one-side" if missing and not extra else "C01/step-application-differs"
+                ctx.violation(sig, f"{tag}: missing={missing[:4]} extra={extra[:4]}")
             if ("disparity" in kinds) != ("disparity_map" in lo):
                 ctx.violation("C01/left-products-presence", tag)
             if (has_val and "disparity" in kinds) != ("disparity_map" in ro):
